@@ -420,6 +420,88 @@ def fragmented_inbound(role, rng):
         pair.close()
 
 
+def received_bytes_trigger(role, rng):
+    """The re-exchange is requested because the bytes RECEIVED under the current keys reach REKEY_BYTES, with
+    REKEY_BYTES_OVERFLOW_MAX scaled to the same value (the shipped 1:1 ratio); more channel data of the peer is in
+    flight behind it, then the peer's kex packets."""
+    from tests._loop import LoopSocket
+
+    gate, other = L.gate_socket(), LoopSocket()
+    gate.link(other)
+    socks = (other, gate) if role == "server" else (gate, other)
+    pair = L.Pair(role, "Transport", True, socks=socks)
+    sub, peer = pair.subject, pair.peer
+    out = {"role": role}
+    try:
+        ch = pair.tc.open_session(timeout=30)
+        sch = pair.ts.accept(30)
+        if sch is None:
+            raise InfraError("accept timed out")
+        sub_ch, peer_ch = (sch, ch) if role == "server" else (ch, sch)
+        tap = L.Tap(sub)
+        sub.clear_to_send_timeout = 5.0
+        if not pair.barrier():
+            raise InfraError("session not usable before the re-exchange")
+        gate.close_gate()
+        pk = sub.packetizer
+        delta = rng.randrange(3000, 6000)
+        limit = pk._Packetizer__received_bytes + delta
+        pk.REKEY_BYTES = limit
+        pk.REKEY_BYTES_OVERFLOW_MAX = limit                 # same ratio as the defaults (2**29 : 2**29)
+        out["rekey_bytes = overflow_max"] = limit
+        # crosses the threshold part-way; what follows the crossing (two to three packets) stays well inside the
+        # allowance a compliant peer has, so only the choice of counter can make the subject drop it
+        chunks = [rng.randbytes(900) for _ in range(delta // 900 + 2)]
+        mark = len(tap.tx)
+        for c in chunks:
+            peer_ch.sendall(c)                              # all in flight
+        gate.gate.set()
+
+        def settled():
+            return (not sub.is_alive() or not peer.is_alive()) or (
+                not sub.in_kex and not peer.in_kex and sub.clear_to_send.is_set() and peer.clear_to_send.is_set()
+                and any(r[0] == 21 for r in tap.tx[mark:]))
+
+        t0 = time.time()
+        while not settled() and time.time() - t0 < 30:
+            time.sleep(0.01)
+        pk.REKEY_BYTES = pk.REKEY_BYTES_OVERFLOW_MAX = 2 ** 29
+        for t in (sub, peer):
+            if not t.is_active():
+                t.join(10)
+        types = [r[0] for r in tap.tx[mark:]]
+        i20 = types.index(20) if 20 in types else len(types)
+        window = []
+        for t in types[i20 + 1:]:
+            if t == 21:
+                break
+            window.append(t)
+        out["window"] = window
+        out["kexinit_sent"] = 20 in types
+        out["completed"] = bool(21 in types and sub.is_active() and peer.is_active() and settled())
+        e = L.root_exc(sub.saved_exception) if sub.saved_exception is not None else None
+        out["sub_exc"] = repr(e)
+        out["sub_site"] = exc_site(e) if e is not None else "-"
+        out["peer_exc"] = repr(peer.saved_exception)
+        want = b"".join(chunks)
+        got = b""
+        if out["completed"]:
+            sub_ch.settimeout(20)
+            try:
+                while len(got) < len(want):
+                    x = sub_ch.recv(65536)
+                    if not x:
+                        break
+                    got += x
+            except Exception:
+                pass
+        out["delivered"] = got == want
+        out["bytes"] = len(want)
+        return out
+    finally:
+        pair.close()
+
+
 def run(ctx):
     L.quiet_logging()
     L.stub_gss()
@@ -531,6 +613,23 @@ def run(ctx):
             model_in = any(t >= 50 for t in win)
             if model_in != bool(offending):
                 ctx.disagree("send gate: user data inside the kex window", o, {"wire": wire}, {"window": o["window"]})
+
+    # ---------------- request raised by the received-bytes threshold, limits scaled 1:1, data in flight behind it
+    for role in ("server", "client"):
+        o = received_bytes_trigger(role, ctx.rng)
+        ctx.case(("received-bytes-trigger", role, o.get("rekey_bytes = overflow_max")), True)
+        ctx.dist("received-bytes-trigger:" + role)
+        ctx.sample(o, limit=16)
+        offending = [t for t in o["window"] if t >= 50 and t != 93]
+        if not o["kexinit_sent"] and o["completed"] is False and o["sub_exc"] == "None":
+            ctx.broken.append({"kind": "harness", "what": "received-bytes-trigger", "detail": "no re-exchange was started"})
+        if offending:
+            ctx.fail("reply-during-kex:data:received-bytes-trigger", o, "types %r between KEXINIT and NEWKEYS" % offending)
+        elif not o["completed"]:
+            ctx.fail("re-exchange-fails:received-bytes-trigger-with-data-in-flight", o,
+                     "subject %s (%s) peer %s" % (o["sub_exc"], o["sub_site"], o["peer_exc"]))
+        elif not o["delivered"]:
+            ctx.fail("in-flight-message-lost:received-bytes-trigger", o, "channel data not delivered intact")
 
     # ---------------- send-side threshold trigger while an inbound packet arrives in fragments with idle gaps
     for role in ("server", "client"):
